@@ -241,7 +241,7 @@ again:
 			mixedLayouts = true
 		}
 	}
-	doubleFault := c.ArchiveID >= minArch || ((c.Cmd == "sum-diff" || c.Cmd == "sum-copy") && mixedLayouts)
+	doubleFault := c.ArchiveID >= minArch || c.ArchiveID < -1 || ((c.Cmd == "sum-diff" || c.Cmd == "sum-copy") && mixedLayouts)
 	if cl != cr && (c.Cmd == "diff" || c.Cmd == "sum-diff" || c.Cmd == "copy" || c.Cmd == "sum-copy") && doubleFault && faulty(cl) && faulty(cr) {
 		ev.Count(HashJSON(c), false, "cmd="+c.Cmd, "order-dependent-double-fault")
 		return nil
